@@ -472,6 +472,67 @@ def stage_interact_logging(ctx, stats):
     stats['interact_sessions'] = n
 
 
+def stage_handover(ctx, stats):
+    """C07 / C11: the stream is handed from expect() to interact() in the middle of a multi-byte character: the bytes expect() has read but
+    not yet been able to decode belong to the character interact() completes, for the log files as for any later read"""
+    import pty, tty, threading, select, sys
+    text = '<\u00e9\u2500\U0001f600>'
+    raw = text.encode('utf-8')
+    cuts = [2, 4, 5, 7, 8, 9]
+    if ctx.quick():
+        cuts = [cuts[i] for i in sorted(ctx.rng.sample(range(len(cuts)), 3))]
+    child = ("import os,sys,time; os.write(1, bytes.fromhex(sys.argv[1])); sys.stdin.readline(); "
+             "os.write(1, bytes.fromhex(sys.argv[2]) + b'|done'); time.sleep(30)")
+    n = 0
+    for cut in cuts:
+        for use_poll in (False, True):
+            head = raw[:cut].decode('utf-8', 'ignore')
+            m, sfd = pty.openpty()
+            tty.setraw(m)
+            p = pexpect.spawn(sys.executable, ['-c', child, raw[:cut].hex(), raw[cut:].hex()], echo=False, encoding='utf-8', timeout=5, use_poll=use_poll)
+            rec = S.RecLog()
+            p.logfile_read = rec
+            msg = None
+            try:
+                p.expect_exact(head)
+                for _ in range(40):          # let the cut byte(s) reach the spawn's decoder
+                    try:
+                        p.read_nonblocking(64, 0.02)
+                    except pexpect.TIMEOUT:
+                        pass
+                    if len(''.join(e[1] for e in rec.ev if e[0] == 'w').encode()) + len(p._decoder.getstate()[0]) >= cut:
+                        break
+                before_n = len([e for e in rec.ev if e[0] == 'w'])
+                p.STDIN_FILENO = sfd; p.STDOUT_FILENO = sfd
+
+                def user():
+                    time.sleep(0.1)
+                    os.write(m, b'\r')
+                    t0 = time.time()
+                    while time.time() - t0 < 3 and '|done' not in ''.join(str(e[1]) for e in rec.ev if e[0] == 'w'):
+                        time.sleep(0.02)
+                    time.sleep(0.05)
+                    os.write(m, b'\x1d')
+                th = threading.Thread(target=user); th.start()
+                try:
+                    p.interact()
+                except Exception as e:       # noqa
+                    msg = 'interact() after expect() stopped inside a character raised %s: %s' % (type(e).__name__, str(e)[:100])
+                th.join()
+                logged = ''.join(e[1] for e in rec.ev[:] if e[0] == 'w')
+                if msg is None and logged != text + '|done':
+                    msg = 'logfile_read over expect() then interact() holds %r, the child wrote %r (cut at byte %d)' % (logged, text + '|done', cut)
+            except pexpect.ExceptionPexpect as e:
+                msg = 'hand-over session failed: %s' % type(e).__name__
+            finally:
+                p.close(force=True)
+                os.close(m); os.close(sfd)
+            n += 1
+            if msg:
+                common.report(ctx, 'interact/handover/cut%d' % cut, msg, dict(cut=cut, use_poll=use_poll, text=text))
+    stats['handover_sessions'] = n
+
+
 def stage_big_sends(ctx, stats):
     """C08: payloads larger than the kernel buffers with a peer that starts reading late, on blocking and timeout-mode descriptors:
     send() must return the number of bytes of its argument and the peer must receive exactly the arguments, concatenated"""
@@ -670,8 +731,10 @@ def run(ctx):
                 ctx.broken.append('correspondence session model vs %s (%s): real %s model %s ops %s' % (c['transport'], c['encoding'], pr, pm, model_ops(c)))
     if prop == 'C07':
         stage_async(ctx, stats)
+        stage_handover(ctx, stats)
     if prop == 'C11':
         stage_interact_logging(ctx, stats)
+        stage_handover(ctx, stats)
     ctx.cov.update(stats)
     ctx.cov['model_compared_cases'] = len(mouts)
     return common.finish(
